@@ -736,6 +736,9 @@ static void str_exec(World& w, const StrOp& o0) {
     size_t start = o.assign ? 0 : S.size(); size_t rem = S.capacity() - start;
     o.bytes.assign(rem >= (size_t)o.a ? rem - (size_t)o.a : 0, uint8_t('k'));
   }
+  if (o.name == "append_self") {     // announced first: if the call dies the trace shows which operation it was
+    W.beginObj().kv("e", "Note"); W.key("op").beginArr().val("append_self").val(o.s + 1).endArr(); W.endObj(); emit(C_STRING);
+  }
   W.beginObj().kv("e", "Op");
   W.key("op").beginArr().val(o.name).val(o.s + 1).val(o.assign ? 1 : 0);
   W.beginArr(); for (auto x : o.bytes) W.val((long long)x); W.endArr();
@@ -778,6 +781,7 @@ static void str_exec(World& w, const StrOp& o0) {
   else if (o.name == "move") { *w.str[o.s] = std::move(*w.str[o.s ^ 1]); two = true; }
   else if (o.name == "assign_str") { W.val(err_name(S.assign(*w.str[o.a]))); }
   else if (o.name == "append_str") { W.val(err_name(S.append(*w.str[o.a]))); }
+  else if (o.name == "append_self") W.val(err_name(S.append(S)));       // String::append(const String&) with itself
   else if (o.name == "assign_sub") W.val(err_name(S.assign(S.data() + o.a, (size_t)o.b)));
   else if (o.name == "eq") W.val(S.equals(text.data(), text.size()) ? 1 : 0);
   else if (o.name == "eq_cstr") W.val(S.equals(text.c_str()) ? 1 : 0);
@@ -865,7 +869,7 @@ static void random_str(World& w, vj::Rng& r) {
   else if (c < 91) { o.name = "swap"; o.s = 0; }
   else if (c < 92) { o.name = "move"; o.s = (int)r.below(2); }
   else if (c < 94) { o.name = r.chance(1, 2) ? "assign_str" : "append_str"; o.a = (long long)r.below(3); if (o.a == o.s) o.a = (o.s + 1) % 3; }
-  else if (c < 97) {
+  else if (c < 96) {
     o.name = r.chance(1, 2) ? "eq" : "eq_cstr";
     o.bytes.assign((const uint8_t*)S.data(), (const uint8_t*)S.data() + S.size());
     unsigned m = (unsigned)r.below(4);
@@ -873,7 +877,7 @@ static void random_str(World& w, vj::Rng& r) {
     for (auto& b : o.bytes) if (b == 0) b = 1;
   }
   else if (c < 98) {
-    if (r.chance(1, 2)) { o.name = "eq_str"; o.a = (long long)r.below(3); }
+    if (r.chance(1, 4)) { o.name = "eq_str"; o.a = (long long)r.below(3); }
     else { o.name = "assign_sub"; size_t sz = S.size(); o.a = (long long)r.below(sz + 1); o.b = (long long)r.below(sz - (size_t)o.a + 1); }   // substring of itself
   }
   else { o.name = "astr"; o.a = 0;   // ArenaString<32> indexes its 12-byte `_embedded` member up to 27 (inside the object, but flagged by UBSan bounds)
@@ -893,7 +897,7 @@ static void random_step(World& w, vj::Rng& r, const unsigned* weight) {
       size_t small_max = 3000;
       if (k < 30) {
         size_t n = 8 * (1 + r.below(r.chance(1, 5) ? small_max / 8 : 24));
-        if (r.chance(1, w.after_soft ? 5 : 25)) n = 8 * (100 + r.below(3500));     // bigger than a (retained) block
+        if (r.chance(1, w.after_soft ? 3 : 25)) n = 8 * (100 + r.below(3500));     // bigger than a (retained) block
         if (w.live_raw() < 18) w.arena_alloc(r.chance(1, 4) ? "zeroed" : "oneshot", n);
       } else if (k < 60) {
         static const std::vector<size_t> e = {1, 15, 16, 17, 32, 33, 64, 65, 128, 129, 256, 257, 512, 513, 1024, 1025, 2047, 2048, 2049, 4000};
